@@ -93,6 +93,18 @@ func cmdC02(c *ctx) {
 		}
 		c02Case(c, m, "generated", src)
 	}
+	// modules with several entry points of mixed stages sharing resources through helpers
+	for i := 0; i < c.n/2; i++ {
+		mm := genMulti(c)
+		src := mm.wgsl()
+		m := lowerQuiet(src)
+		if m == nil {
+			c.count("multi-frontend-rejected")
+			continue
+		}
+		c.count(fmt.Sprintf("multi-entry-points:%d", len(mm.entries)))
+		c02Case(c, m, "multi-entry", src)
+	}
 }
 
 func init() { commands["c02"] = cmdC02 }
